@@ -8,7 +8,7 @@ E = "exhaustive enumeration of a bounded input domain through the real code agai
 
 checks = {
  "C01": dict(engine="Q+E+S", tech=Q + "; " + E + "; " + S,
-   text="every state of the key list (all orders x all last-client-IP assignments, built through the public API) x every (key, client IP) is authenticated once on the real authenticator and compared with the configuration; all single-bit flips/truncations of the 50 key-finding bytes; position sweep to 100 (300) keys; concurrent authentications vs. list replacement under every schedule within the bound; key lists built from configurations (same secret under several ciphers, duplicates, 45 keys) through the real server; legacy key lists over grouped and interleaved ports and a usage history from fixed client addresses",
+   text="every state of the key list (all orders x all last-client-IP assignments, built through the public API) x every (key, client IP) is authenticated once on the real authenticator and compared with the configuration; all single-bit flips/truncations of the 50 key-finding bytes; position sweep to 100 (300) keys; concurrent authentications vs. list replacement under every schedule within the bound; key lists built from configurations (same secret under several ciphers, duplicates, 45 keys) through the real server; legacy key lists over grouped and interleaved ports and a usage history from fixed client addresses; with the replay history disabled the same opening presented again and again",
    note="bounded: 5 (6) keys in the state sweep, lists to 100 (300) keys, 3 client IPs; AEAD unforgeability assumed (all 2^400 openings cannot be enumerated)"),
  "C02": dict(engine="E+S", tech=E + "; " + S,
    text="real StreamServe/Handle/default dialer on the in-memory network: payload-size x chunking x segmentation x address-type x cipher x coalescing grid on the default schedule, plus every schedule (deviation bound 2/3) of six who-speaks-first / who-half-closes-first scenarios with 256-byte socket buffers; connections silent for 58 s / 60 s / 1 h after the handshake; oracle compares both byte streams and the end-of-stream order (metrics and leaks are C15/C18); the target answering and going away while a slow client keeps uploading (kernel send queue modelled in vnet); relays whose listener is closed mid-transfer; the server's accept path (listener manager) with a client that half-closes and reads late",
@@ -17,16 +17,16 @@ checks = {
    text="all operation sequences to depth 3 (4) over a 26-operation menu of client datagrams (valid under each cipher, wrong key, other listed key on a live association, flipped, truncated, bad address, private destination, domain) and target/stranger replies on the real packet handler; oracle decides forwarding, payload integrity, source stability, attribution, reply encryption/sender address/salt freshness from the statement, association liveness is observed on the sockets; datagram and reply sizes up to the buffer limits incl. zoned IPv6 senders; two Handle loops on one handler and a handler reading from a listener-manager handle, datagrams back to back, under every schedule within the bound; both address families on one association; configuration-level key lists on UDP listeners through the real server; reply sizes to a client with an IPv6 address on a dual-stack socket",
    note="two clients, four targets; sequences run at quiescence (default schedule); sizes from a boundary set"),
  "C04": dict(engine="Q+S", tech=Q + "; " + S,
-   text="all sequences to depth 3 (4) over three clients (same IP/different port, different IP), two targets, a stranger and clock advances with the C03 oracle plus the ownership invariant (no server socket ever carries two clients; a datagram arriving at a client's source goes to that client only); every schedule within the bound of a new datagram racing a reply and the association's expiry, and of two clients opening at once; CGNAT / ULA destinations; two clients that differ only in the IPv6 zone; a service with two UDP listeners on one handler racing; broadcast and zero-length-domain destinations; one client over DNS / non-DNS datagrams, DNS replies and pauses: the source is stable within the promised lifetime",
+   text="all sequences to depth 3 (4) over three clients (same IP/different port, different IP), two targets, a stranger and clock advances with the C03 oracle plus the ownership invariant (no server socket ever carries two clients; a datagram arriving at a client's source goes to that client only); every schedule within the bound of a new datagram racing a reply and the association's expiry, and of two clients opening at once; CGNAT / ULA destinations; two clients that differ only in the IPv6 zone; a service with two UDP listeners on one handler racing; broadcast and zero-length-domain destinations; one client over DNS / non-DNS datagrams, DNS replies and pauses: the source is stable within the promised lifetime; a reply from a host of the other address family; a datagram that does not decrypt on the live association",
    note="NAT timeout 10 s on the virtual clock; deviation bound 3 (5)"),
  "C05": dict(engine="E+S", tech=E + "; " + S,
    text="the real RequirePublicIP against an independent bit-level classifier over IPv4 (quick: every block boundary +-2 and six addresses per /16; thorough: all 2^32) in 4-byte and mapped form and over all 65536 IPv6 /16s x 8 tails; end to end through the real TCP handler + default dialer and the real UDP handler + default validator: every SOCKS encoding x 32 representative addresses x 17 resolver answers x packet positions 1-3, oracle on the vnet traffic log; the same destination repeated within an association; two concurrent dials (one non-public) through the shared default dialer under every schedule incl. accesses to closure-shared variables; the first two validations of a process at once, each execution in a process of its own",
    note="IPv6 by /16 prefix and tail pattern; vnet.Dialer mirrors net.Dialer's Control sequence (conformance suite)"),
  "C07": dict(engine="Q+E+S", tech=Q + "; " + E + "; " + S,
-   text="every sequence of depth 7 (8) over {Add(h1..h5), Add(h6 colliding with h1), Resize(0..3)} from every initial capacity 0..3 on the real ReplayCache in lock-step with the statement's reference model; capacities up to 20000 with 2.5N handshakes and re-presentation; construction limits; concurrent Add/Add/Add and Add/Add/Resize under every schedule (unbounded) with the race monitor; two concurrent Adds on a full active set then a replay; services built around one shared history that is resized in between; access keys with an empty id; replays across listeners, services, formats and reloads on the whole server",
+   text="every sequence of depth 7 (8) over {Add(h1..h5), Add(h6 colliding with h1), Resize(0..3)} from every initial capacity 0..3 on the real ReplayCache in lock-step with the statement's reference model; capacities up to 20000 with 2.5N handshakes and re-presentation; construction limits; concurrent Add/Add/Add and Add/Add/Resize under every schedule (unbounded) with the race monitor; two concurrent Adds on a full active set then a replay; services built around one shared history that is resized in between; access keys with an empty id; replays across listeners, services, formats and reloads on the whole server; all sequences over key ids that agree in their first four bytes / are prefixes / are empty, with shared salts",
    note="the cross-listener / cross-reload clauses are covered by the package-main harness (same property id) once built; checksum collisions are constructed, not searched"),
  "C08": dict(engine="E", tech=E,
-   text="4 (100) batches x 50 complete connections per cipher through the real handler: exact pairwise freshness of the server salts within a batch, recognisability by the key's own generator, and reflection of real recorded server output (whole, extended, every truncation >= 50 bytes) with the cache nil/disabled/on: ERR_REPLAY_SERVER and probe handling (nothing written, no dial, closed at the timeout); supplementary free-running pass of concurrent salt generation under the race detector (sampling); a key list that starts with an aes-128 key of the same secret; the entropy source failing from its n-th read on",
+   text="4 (100) batches x 50 complete connections per cipher through the real handler: exact pairwise freshness of the server salts within a batch, recognisability by the key's own generator, and reflection of real recorded server output (whole, extended, every truncation >= 50 bytes) with the cache nil/disabled/on: ERR_REPLAY_SERVER and probe handling (nothing written, no dial, closed at the timeout); supplementary free-running pass of concurrent salt generation under the race detector (sampling); a key list that starts with an aes-128 key of the same secret; the entropy source failing from its n-th read on; a key with an empty ID; the reflecting client using a key of another salt size in between",
    note="crypto/rand is a deterministic DRBG per batch; aes-128 (16-byte salt) is outside the recognisability clause"),
  "C14": dict(engine="Q+E+S", tech=Q + " on a virtual clock; " + E + "; " + S,
    text="all 15^4 (15^5) sequences over {DNS / non-DNS datagrams of two clients (incl. a port ending in 53 and a datagram whose sendto fails), replies from port 53 / 80 / 8053, advances of 1 s, 16 s, 17 s+, T-1 s, T+, shutdown} for NAT timeouts 300 s and 10 s on the real packet handler; reference = the statement's promise (max over datagrams of send time + 17 s / T), the server's own deadlines are read from the socket log: no early expiry, deadlines monotone, reclamation after the deadline, single-DNS fast close, prompt shutdown, one removal report per association, no leaked thread or socket; teardown windows (removal reports that take virtual time) with datagrams, replies and other clients arriving before, inside and after them; a DNS reply racing a second datagram under every schedule within the bound; a DNS server with an IPv6 address; shutdown of a handler whose address stays open for another handle",
@@ -35,7 +35,7 @@ checks = {
    text="every connection outcome class (OK, ERR_CIPHER, both replay kinds, ERR_READ_ADDRESS, ERR_ADDRESS_*, ERR_CONNECT, ERR_RELAY_CLIENT, ERR_RELAY_TARGET) x ciphers x sizes, singly and in sequences, with a recording TCPConnMetrics teed into the real Prometheus collectors: call multiplicity/order/status, probe bytes = bytes sent, counters vs. bytes on the vnet sockets (equal when completed, never larger), gathered counters vs. calls; pairs of concurrent connections under every schedule within the bound; both relay directions failing (client first); probes of zero bytes",
    note="deviation bound 2 (3) for the concurrent pairs"),
  "C16": dict(engine="Q+S", tech=Q + "; " + S,
-   text="all sequences to depth 3 (4) over the C03 menu plus clock advances with a recording UDPMetrics (every third sequence also through the real Prometheus collectors): one add/remove per association, one client report per datagram on an association with status, wire size and payload size, one target report per reply, per-key per-direction sums equal the bytes on the sockets, gathered counters equal the calls; a DNS target that answers at once racing the report of the datagram just relayed, under every schedule within the bound",
+   text="all sequences to depth 3 (4) over the C03 menu plus clock advances with a recording UDPMetrics (every third sequence also through the real Prometheus collectors): one add/remove per association, one client report per datagram on an association with status, wire size and payload size, one target report per reply, per-key per-direction sums equal the bytes on the sockets, gathered counters equal the calls; a DNS target that answers at once racing the report of the datagram just relayed, under every schedule within the bound; removal reported when the association ends, with the listener still open",
    note="association liveness observed on the sockets"),
  "C18": dict(engine="E+S", tech=E + "; " + S,
    text="TCP: every address-type byte x fillers, domain lengths, headers truncated at every length, out-of-range and zero chunk lengths, every outcome class, each followed by a well-formed connection that must be served; UDP: the same shapes as datagrams, replies of boundary sizes from IPv4/IPv6/zoned sources, socket-creation failure, shutdown; concurrent hostile+normal connections, injected accept error, listener shutdown with handlers in flight, and associations expiring while datagrams arrive (unordered conflicting map accesses = runtime abort) under every schedule within the bound; oracle: no unrecovered or recovered panic, no thread or socket left, StreamServe/Handle return only after their handlers; a handler that fails and is recovered next to a normal connection; shutdown of a listener-manager listener with connections arriving; livelock detection (a thread that never blocks for good); connections accepted vs. handlers finished when StreamServe returns; a handler in a connect that never completes at shutdown; nothing left of idle clients while the listener is open",
@@ -44,7 +44,7 @@ checks = {
    text="every probe of the grid (random bytes of every length 0..120 and large, every truncation <50 of a valid stream, every single-bit flip of a valid 3-chunk stream, replays) x 4 ciphers x key-list sizes x client behaviours {keep open, FIN, more data at T/2} runs through the real handler; the reference model decides whether it authenticates; oracle: zero bytes written, no dial, close exactly at min(client close, t0+59s) by FIN, AddProbe bytes = bytes sent; post-authentication invalid streams are never actively closed; replays against the whole server in both configuration formats; a probe racing a legitimate authentication on the same key (race-directed exploration); replays after the history has rotated and the server was reloaded; probes arriving after two clients from two addresses have used two keys",
    note="virtual time (exact instants, no wall clock); quick tier samples one bit per byte for ciphers 2-4"),
  "C09": dict(engine="E+S", tech=E + "; " + S,
-   text="the real server (package main, started through RunOutlineServer on vnet) is booted with every 3rd (every) configuration of a ~4300-element space (1-2 services x listener sets x ordered key lists with duplicated (cipher, secret) pairs and shared keys x legacy per-port keys, both formats mixed); then every (listener, key of the universe) pair is probed with a real TCP connection / UDP datagram; expectation (authenticates iff the (cipher, secret) belongs to the owner, first configured ID) is computed from the configuration alone; usage histories from fixed client addresses; legacy sets with interleaved ports; two clients with different keys of one service at the same time under every schedule within the bound; opening bytes arriving in two pieces",
+   text="the real server (package main, started through RunOutlineServer on vnet) is booted with every 3rd (every) configuration of a ~4300-element space (1-2 services x listener sets x ordered key lists with duplicated (cipher, secret) pairs and shared keys x legacy per-port keys, both formats mixed); then every (listener, key of the universe) pair is probed with a real TCP connection / UDP datagram; expectation (authenticates iff the (cipher, secret) belongs to the owner, first configured ID) is computed from the configuration alone; usage histories from fixed client addresses; legacy sets with interleaved ports; two clients with different keys of one service at the same time under every schedule within the bound; opening bytes arriving in two pieces; one client socket talking to two UDP listeners in turn",
    note="key universe of 5 keys + 1 foreign key, 6 ports; the harness is injected into package main through the build overlay and uses only RunOutlineServer / newPrometheusServerMetrics / Stop"),
  "C10": dict(engine="Q", tech=Q + " with fault enumeration",
    text="all 18^2 (18^3) reload sequences after booting configuration A over: five valid configurations (shared addresses/keys, dropped keys, format switch) and every failure stage (missing file, malformed YAML, three validation errors, bad cipher in service 0 / service 1 / a legacy key, the 1st..4th listener or the legacy UDP socket unbindable); reloads go through the real SIGHUP path; after every step the bound sockets, the C09 authentication matrix and the number of live server threads are compared with the last configuration that loaded; after Stop nothing is bound and nothing runs; configurations with keys sharing a secret, valid and with an unsupported cipher",
@@ -62,10 +62,10 @@ checks = {
    text="key list {Snapshot || MarkUsed || Update}, replay history {Add || Add || Add || Resize}, the association table under datagrams/replies/expiry/shutdown, shared listeners (C12 scenarios) and collectors (C17 concurrent scenarios): every schedule (unbounded for the small components, deviation-bounded otherwise) is executed with every instrumented field/map/list access checked for an unordered conflicting pair, and the recorded call/return histories checked for linearizability; a supplementary free-running pass of the component bodies under the Go race detector (sampling; reports are genuine, silence proves nothing); shared-listener outcomes that no sequential order of the calls gives (delivery after Close has returned, double delivery); the association race (second datagram vs fast-closing DNS answer) against sequential orders",
    note="the monitor sees fields of structs declared in the repository, maps reached through them, container/list objects, closure-shared local variables and package-level variables; slice elements and third-party internals are outside it; a race found in any S unit of any check triggers a second exploration with the racing accesses as scheduling points"),
  "C20": dict(engine="E+Q", tech=E + "; " + Q,
-   text="GetIPInfoFromAddr/GetIPInfoFromIP over 24 hosts of every class x 4 address forms, zoned, names, malformed, nil x 4 database behaviours with a recording fake database against the decision table (incl. database not consulted for XA/XL/disabled); all 35^2 (35^3) sequences x 3 database modes of traffic operations from distinctive client addresses through the real collectors, the text exposition scanned after every operation for address material, unknown label names and port-valued samples; the same table observed through the real TCP/UDP collectors (location label of every gathered sample); one set of labels per address whichever the protocol of the flow",
-   note="exposure is checked at the collector API (the seam every handler reports through)"),
+   text="GetIPInfoFromAddr/GetIPInfoFromIP over 24 hosts of every class x 4 address forms, zoned, names, malformed, nil x 4 database behaviours with a recording fake database against the decision table (incl. database not consulted for XA/XL/disabled); all 35^2 (35^3) sequences x 3 database modes of traffic operations from distinctive client addresses through the real collectors, the text exposition scanned after every operation for address material, unknown label names and port-valued samples; the same table observed through the real TCP/UDP collectors (location label of every gathered sample); one set of labels per address whichever the protocol of the flow; every class of TCP connection (incl. a probe reset by its sender) through the real handler on vnet into the real collectors, same scan",
+   note="exposure is checked at the collector API (the seam every handler reports through) and, for TCP, through the real stream handler"),
  "C13": dict(engine="S", tech=S,
-   text="every schedule of 2- and 3-thread listen/close programs on the real ListenerManager within a deviation bound is executed; deadlock = no enabled thread with an unfinished caller (wait-for cycle extracted); the manager is re-used afterwards; programs with traffic pending on the shared socket (an unaccepted connection, an unread datagram) when the handles close; failed listens",
+   text="every schedule of 2- and 3-thread listen/close programs on the real ListenerManager within a deviation bound is executed; deadlock = no enabled thread with an unfinished caller (wait-for cycle extracted); the manager is re-used afterwards; programs with traffic pending on the shared socket (an unaccepted connection, an unread datagram) when the handles close; failed listens; stream handles closed again and handles used after their close",
    note="bounded: <=3 user threads, <=4 operations each, 2 addresses; deviation bound 2 (2 threads) / 1 (3 threads) quick, 3 / 2 thorough"),
 }
 
